@@ -77,12 +77,26 @@ func argumentsGetOwnProperty(obj *object, name string) *property {
 }
 
 func argumentsDefineOwnProperty(obj *object, name string, descriptor property, throw bool) bool {
-	if _, exists := obj.value.(argumentsObject).get(name); exists {
+	if current, exists := obj.value.(argumentsObject).get(name); exists {
 		if !objectDefineOwnProperty(obj, name, descriptor, false) {
 			return obj.runtime.typeErrorResult(throw)
 		}
-		if value, valid := descriptor.value.(Value); valid {
+		// 10.6 [[DefineOwnProperty]] step 5
+		if _, isAccessor := descriptor.value.(propertyGetSet); isAccessor {
+			obj.value.(argumentsObject).delete(name)
+			return true
+		}
+		value, valid := descriptor.value.(Value)
+		if valid {
 			obj.value.(argumentsObject).put(name, value)
+			current = value
+		}
+		if descriptor.writeSet() && !descriptor.writable() {
+			// The element leaves the parameter map with the value it has now
+			obj.value.(argumentsObject).delete(name)
+			if prop, exists := obj.readProperty(name); exists {
+				obj.writeProperty(name, current, prop.mode)
+			}
 		}
 		return true
 	}
